@@ -209,4 +209,93 @@ theorem processFrames_trunc (oks : G → P → Option R) (score : P → R) (thr 
     simp only [List.length_append]
     omega
 
+/-! ### perfect predictions next to *empty* ground-truth instances -/
+
+theorem getElem?_inj_of_nodup' {α : Type} {l : List α} (h : l.Nodup) {i j : Nat} {x : α}
+    (hi : l[i]? = some x) (hj : l[j]? = some x) : i = j := by
+  obtain ⟨hi', ei⟩ := List.getElem?_eq_some_iff.mp hi
+  obtain ⟨hj', ej⟩ := List.getElem?_eq_some_iff.mp hj
+  exact (List.Nodup.getElem_inj_iff h).mp (ei.trans ej.symm)
+
+theorem bestGo_none (thr : R) : ∀ (l : List (Option R)) (s : Nat),
+    (∀ (j : Nat) (w : R), l[j]? = some (some w) → ¬ thr < w) → bestGo thr s none l = none
+  | [], _, _ => rfl
+  | none :: t, s, h => by
+    simp only [bestGo]
+    exact bestGo_none thr t (s + 1) (fun j w hj => h (j + 1) w (by simpa using hj))
+  | some w :: t, s, h => by
+    simp only [bestGo]
+    rw [if_neg (h 0 w (by simp))]
+    exact bestGo_none thr t (s + 1) (fun j w hj => h (j + 1) w (by simpa using hj))
+
+/-- `real g` = gt instance `g` has a visible keypoint.  Copies of real instances take their own gt at
+OKS `one`; the copy of an empty instance (all keypoints NaN, OKS 0 or NaN against everything) matches
+nothing; empty gt rows (OKS NaN) are skipped by `best`. -/
+theorem matchLoop_perfect_empty (oks : G → P → Option R) (pred : G → P) (real : G → Bool) (thr one : R)
+    (hthr : thr < one) (hself : ∀ g, real g = true → oks g (pred g) = some one)
+    (hdist : ∀ g g' w, real g = true → g' ≠ g → oks g' (pred g) = some w → w < one)
+    (hempty : ∀ g g' w, real g = false → oks g' (pred g) = some w → ¬ thr < w) :
+    ∀ (gs avail : List G), avail.Nodup → gs.Nodup → (∀ g ∈ gs, real g = true → g ∈ avail) →
+      (matchLoop oks thr (gs.map pred) avail).1 = (gs.filter real).map (fun g => (g, pred g, one))
+  | [], avail, _, _, _ => by simp [matchLoop]
+  | g :: gs, [], _, _, hin => by
+    have hnone : ∀ x ∈ g :: gs, real x = false := by
+      intro x hx
+      cases hr : real x with
+      | false => rfl
+      | true => exact absurd (hin x hx hr) (by simp)
+    have : (g :: gs).filter real = [] := List.filter_eq_nil_iff.mpr (fun x hx => by simp [hnone x hx])
+    rw [this]; simp [matchLoop]
+  | g :: gs, a :: as, hnd, hgs, hin => by
+    have hgs' := (List.nodup_cons.mp hgs)
+    rw [List.map_cons, matchLoop_cons]
+    cases hr : real g with
+    | false =>
+      have hb : best thr ((a :: as).map (fun g' => oks g' (pred g))) = none := by
+        apply bestGo_none
+        intro j w hj
+        rw [List.getElem?_map] at hj
+        cases hgj : (a :: as)[j]? with
+        | none => rw [hgj] at hj; simp at hj
+        | some g' =>
+          rw [hgj] at hj
+          exact hempty g g' w hr (by simpa using hj)
+      rw [hb, List.filter_cons, hr]
+      simp only [Bool.false_eq_true, if_false]
+      exact matchLoop_perfect_empty oks pred real thr one hthr hself hdist hempty gs (a :: as) hnd hgs'.2
+        (fun x hx hrx => hin x (List.mem_cons_of_mem _ hx) hrx)
+    | true =>
+      have hg : g ∈ a :: as := hin g List.mem_cons_self hr
+      obtain ⟨i, hi, hig⟩ := List.getElem_of_mem hg
+      have higet : (a :: as)[i]? = some g := by rw [List.getElem?_eq_getElem hi, hig]
+      have hb : best thr ((a :: as).map (fun g' => oks g' (pred g))) = some (i, one) := by
+        apply best_unique_max thr one hthr
+        · rw [List.getElem?_map, higet]; simp [hself g hr]
+        · intro j w hj hjw
+          rw [List.getElem?_map] at hjw
+          cases hgj : (a :: as)[j]? with
+          | none => rw [hgj] at hjw; simp at hjw
+          | some g' =>
+            rw [hgj] at hjw
+            have hne : g' ≠ g := by
+              rintro rfl
+              exact hj (getElem?_inj_of_nodup' hnd hgj higet)
+            exact hdist g g' w hr hne (by simpa using hjw)
+      have hperm : (g :: (a :: as).eraseIdx i).Perm (a :: as) := cons_eraseIdx_perm _ i g higet
+      have hnd' : ((a :: as).eraseIdx i).Nodup := hnd.sublist (List.eraseIdx_sublist _ _)
+      have hin' : ∀ x ∈ gs, real x = true → x ∈ (a :: as).eraseIdx i := by
+        intro x hx hrx
+        have hxa := hin x (List.mem_cons_of_mem _ hx) hrx
+        have hxg : x ≠ g := fun e => hgs'.1 (e ▸ hx)
+        rcases List.mem_cons.mp (hperm.mem_iff.mpr hxa) with h | h
+        · exact absurd h hxg
+        · exact h
+      have ih := matchLoop_perfect_empty oks pred real thr one hthr hself hdist hempty gs _ hnd' hgs'.2 hin'
+      rw [hb]
+      dsimp only
+      rw [higet]
+      dsimp only
+      rw [ih, List.filter_cons, hr]
+      simp
+
 end SleapVerif.Eval
